@@ -74,6 +74,15 @@ theorem interp_stop_is_instance (fuel : Nat) (env : Model.Interp.Env) (id : Nat)
     (try split) <;> simp_all
 
 open Model.Interp in
+theorem interp_skip_is_instance (fuel : Nat) (env : Model.Interp.Env) (id : Nat) (q : List String) (a : Model.Interp.Node)
+    (s : Model.Interp.ES) (hq : q.contains "once" = false) :
+    decideFn (fuel + 1) env id "skip" q [a] s = (some env.dm, skipFn (interpWorld fuel env a) true true s) ∧
+    decideFn (fuel + 1) env id "skip" q [] s = (some env.dm, skipFn (interpWorld fuel env a) false true s) := by
+  refine ⟨?_, ?_⟩ <;> unfold decideFn <;>
+    simp only [String.reduceBEq, Bool.or_self, Bool.or_false, Bool.or_true, Bool.false_eq_true, if_false, if_true, skipFn, interpWorld, hq] <;>
+    (try split) <;> simp_all
+
+open Model.Interp in
 theorem interp_fail_is_instance (fuel : Nat) (env : Model.Interp.Env) (id : Nat) (q : List String) (a : Model.Interp.Node)
     (s : Model.Interp.ES) :
     decideFn (fuel + 1) env id "fail" q [] s = (some env.dm, failFn (interpWorld fuel env a) s) := by
